@@ -32,7 +32,10 @@ void run(const char* type) {
 #define FU(NAME) fdrive_unary<V, T>("C16", type, #NAME, vals, [](V a) { return avel::to_array(avel::NAME(a)); }, [](T a, T& o) { o = avel::NAME(a); return true; }, veq);
     FU(abs) FU(neg_abs) FU(sqrt) FU(ceil) FU(floor) FU(trunc) FU(round) FU(nearbyint) FU(rint) FU(frac) FU(logb)
 #define FB(NAME) fdrive_binary<V, T>("C16", type, #NAME, pairs, [](V a, V b) { return avel::to_array(avel::NAME(a, b)); }, [](T a, T b, T& o) { o = avel::NAME(a, b); return true; }, veq);
-    FB(copysign) FB(fmax) FB(fmin)
+    FB(copysign)
+    // fmax / fmin: signalling NaN operands are outside the compared domain (see C12)
+    fdrive_binary<V, T>("C16", type, "fmax", pairs, [](V a, V b) { return avel::to_array(avel::fmax(a, b)); }, [](T a, T b, T& o) { if (is_snan_bits(a) || is_snan_bits(b)) return false; o = avel::fmax(a, b); return true; }, veq);
+    fdrive_binary<V, T>("C16", type, "fmin", pairs, [](V a, V b) { return avel::to_array(avel::fmin(a, b)); }, [](T a, T b, T& o) { if (is_snan_bits(a) || is_snan_bits(b)) return false; o = avel::fmin(a, b); return true; }, veq);
     // fdim: NaN operands / equal infinities outside the compared domain (as in C12)
     fdrive_binary<V, T>("C16", type, "fdim", pairs, [](V a, V b) { return avel::to_array(avel::fdim(a, b)); }, [](T a, T b, T& o) { if (is_nan_bits(a) || is_nan_bits(b) || (std::isinf(a) && a == b)) return false; o = avel::fdim(a, b); return true; }, veq);
     // min / max: non-NaN inputs only
